@@ -35,6 +35,10 @@ claimed = {
    text="Decides from source: the decompressor's Close verdict (CRC-16 + size) dominates every return of decoded data for every lzhuf.Reader created outside lzhuf, and Message parses only after that call's nil-error edge; the store accepting a received payload is dominated by pass edges of guards depending on all four integrity sources (running checksum, compressed size, header length byte, offset) whose failing edges reach error exits only; lzhuf Reader.Close returns nil only past guards on sticky errors, CRC (under the crc16 flag only) and size; delivery and sent-reporting chains shared with C02. Does not decide the checksum/CRC arithmetic itself nor which alterations a reference codec would also accept.",
    technique="typestate-style dominance analysis on SSA (verdict before use), guard/data-dependence classification of integrity checks, error-exit classification",
    ref="DESIGN.md section 4, C04"),
+ "C01": dict(
+   text="Decides from source: every return of Exchange reachable after the connection was used is dominated by the registration of a deferred close of that connection; the sender's dispatch has an arm per answer constant, every payload write/read is dominated by 'answer == Accept' of the very proposal transferred, deferral/rejection/transfer bookkeeping happens only on the matching answer edge (transfer only after the write succeeded), duplicate MIDs in a block are deferred; the emitted block is proven <= 5 proposals and the answers are matched against that same slice; reporting chains shared with C02 (sent after confirmation, received after the handler succeeded, one report per MID). Does not decide byte-identical delivery, exactly-once accounting across turn-overs or stream segmentations (run-time quantities).",
+   technique="dominance analysis on SSA (deferred-close registration, answer-equality guards on transfer call sites), length proof by the fact engine, shared reporting-chain rules",
+   ref="DESIGN.md section 4, C01"),
 }
 
 not_applicable = {
